@@ -82,6 +82,11 @@ func (i c13interpT) TransformNode(u interface{}, n parsley.Node) (parsley.Node, 
 	if i.m.id == i.w.failAt {
 		return nil, parsley.NewErrorf(n.Pos(), "fail %d", i.m.id)
 	}
+	if i.m.id%4 == 0 {
+		// a transformer may legally decide to keep the node as it is: the node still "has its own transformer",
+		// so nothing below it is transformed by the library
+		return n, nil
+	}
 	return ast.NewTerminalNode(fmt.Sprintf("ST%d", i.m.id), fmt.Sprintf("T%d", i.m.id), nil, n.Pos(), n.ReaderPos()), nil
 }
 
@@ -157,6 +162,18 @@ func c13post(m *c13m, out *[]*c13m) {
 		c13post(k, out)
 	}
 	*out = append(*out, m)
+}
+
+// c13shapeMirror: the shape of an untransformed mirror subtree (same format as c13shape)
+func c13shapeMirror(m *c13m) string {
+	if m.kind != 2 {
+		return fmt.Sprintf("L%d", m.id)
+	}
+	var ks []string
+	for _, k := range m.kids {
+		ks = append(ks, c13shapeMirror(k))
+	}
+	return fmt.Sprintf("N%d(%s)", m.id, strings.Join(ks, " "))
 }
 
 func c13shape(w *c13world, nd parsley.Node) string {
@@ -394,6 +411,9 @@ func c13exec(j run.Job, a *run.Acc) {
 				if m.id == w.failAt {
 					abort = true
 					return ""
+				}
+				if m.id%4 == 0 { // identity transformer: the node stays, with its children untouched
+					return c13shapeMirror(m)
 				}
 				return fmt.Sprintf("T%d", m.id)
 			}
